@@ -205,6 +205,27 @@ def run_case(case, obs=None):
         cv.decode_bits(bytearray(exp), {k: lay[k] for k in order}, res)
         if bytes(res.get("blob", b"?")) != value or (with_bits and res.get("f") != 0xABC):
             out.append(("decode_blob", "%s len=%d off=%d of %s -> %r" % (bk, length, offset, exp.hex(), res)))
+    elif kind == "overlap":
+        _, bk, length, src, dst, target = case
+        n = length * {"b": 1, "w": 2, "dw": 4}[bk]
+        size = max(src, dst) + n + 4
+        orig = bytes((i * 7 + 3) & 0xFF for i in range(size))
+        store = bytearray(orig)
+        tgt = store if target == "bytearray" else memoryview(store)
+        value = memoryview(store)[src:src + n]
+        exp = bytearray(orig)
+        exp[dst:dst + n] = orig[src:src + n]
+        try:
+            cv.encode_dict({"blob": value}, {"blob": (bk, dst, length)}, tgt)
+        except Exception:   # noqa: BLE001 - refusing a view of the target (or a memoryview target) is fine
+            return []
+        finally:
+            value.release()
+        if obs is not None:
+            obs.append(bytes(store))
+        if bytes(store) != bytes(exp):
+            out.append(("encode_overlap", "%s blob of %d bytes taken from offset %d of the %s it is encoded into at offset %d: buffer is %s, expected %s (the bytes the value had at call time)"
+                        % (bk, n, src, target, dst, bytes(store).hex(), bytes(exp).hex())))
     elif kind == "shared":
         _, akind, bkind, at, pat = case
         lay_a = {"bits": {"a1": [0xFFF0, 0], "a2": [0x0F, 1], "a3": [0x80, 2]}, "blob": {"a1": ("b", 0, 2), "a2": ("b", 2, 1)},
@@ -330,7 +351,7 @@ def replay(case):
 
 # ---------------------------------------------------------------------------------
 def partitions(tier):
-    parts = [["int"], ["blob"], ["blobs", 2], ["blobs", 3], ["split"], ["shared"]]
+    parts = [["int"], ["blob"], ["blobs", 2], ["blobs", 3], ["split"], ["shared"], ["overlap"]]
     for w in (152, 256, 264, 512):          # masks wider than 9 / 19 / 32 bytes
         parts.append(["single", w])
     for w in range(1, 73):
@@ -405,6 +426,16 @@ def gen(part, tier):
                                 for hsel in range(3):
                                     for order in (0, 1):
                                         yield ("split", lo_w, hole_w, hi_w, shift, offset, vsel, hsel, order, "FF" if (vsel + hsel) % 2 else "00")
+    elif kind == "overlap":
+        # a blob taken FROM the target buffer (a live view of the same memory) and stored at another offset of it - moving a descriptor
+        # inside one parameter buffer; source below / above / overlapping the field; the target a bytearray or a memoryview of one
+        for bk, unit in (("b", 1), ("w", 2), ("dw", 4)):
+            for length in (1, 2, 4):
+                for src in (0, 2, 4, 8, 12):
+                    for dst in (0, 4, 6, 8):
+                        for target in ("bytearray", "memoryview"):
+                            if src != dst:
+                                yield ("overlap", bk, length, src, dst, target)
     elif kind == "shared":
         # two encodes into ONE buffer that overlap in time: the second (fields of bytes 4-7) runs to completion while the first (fields
         # of bytes 0-2) is fetching its k-th value from a lazy mapping; each writes its own bits only, so both survive
